@@ -63,6 +63,9 @@ def queries(tier):
                 "A(0) Q(0,0) R(0,0) C(0) S(1,0) A(0) S(2,0) Z"]
     # hop limit boundary: 7 hop words + id (8 words) is the most MAXTTL=8 admits; one more is dropped, not delivered
     REP_CUR += ["A(0) QB(0,2) R(0,0) Z", "A(0) Q(0,7) QB(0,2) R(0,0) S(1,0) Z", "A(0) R(0,1) QB(0,2) Q(0,0) Z"]
+    # the next request of a connection arrives while the previous reply is still being written to it
+    REP_CUR += ["A(0) Q(0,0) R(0,0) S(1,0) Q(0,0) R(2,0) T(0,1) S(3,0) T(0,1) Z", "A(0) Q(0,0) R(0,0) S(1,0) Q(0,0) R(2,0) S(3,1) T(0,1) T(0,1) Z",
+                "A(0) A(1) Q(0,0) R(0,0) S(1,0) Q(1,0) R(2,0) S(3,0) T(0,1) T(1,1) Z", "A(0) Q(0,0) R(0,0) S(1,0) R(2,1) Q(0,0) T(0,1) S(3,0) Z"]
     REP_ALPHA = ["A(0)", "A(1)", "G(0,1)", "G(1,0)", "Q(0,0)", "Q(0,1)", "Q(1,0)", "QB(0,0)", "QB(0,1)", "R(%d,0)", "R(%d,1)", "S(%d,0)", "T(0,1)", "C(0)"]
     rwords = list(REP_CUR) + skel.enumerate_words(REP_ALPHA, 4 if tier == "quick" else 5, first=["A(0)"], limit=110 if tier == "quick" else 3000)
     seen = set()
